@@ -38,6 +38,8 @@ type Plan struct {
 	Custom func(p *Plan, prop, tier string, seed uint64) int
 	// ReplayFn replaces the generic replay.
 	ReplayFn func(p *Plan, t *Trace, path string) int
+	// ExtraCov is merged into the evidence coverage object.
+	ExtraCov map[string]any
 	// ExtraShrink offers engine-specific reductions to the minimiser.
 	ExtraShrink func(t *Trace, try func(*Trace) bool) *Trace
 }
@@ -255,15 +257,26 @@ func workerMain(prop, tier string, seed uint64, shard, nshard int, out string) i
 			st.Known[v.Sig]++
 			return false
 		}
+		for _, old := range rep.Violations {
+			if old.Sig == v.Sig {
+				return false
+			}
+		}
 		t = t.Clone()
 		t.Sig, t.What = v.Sig, v.What
 		if p.Minimise {
 			t = Minimise(p, t, findings)
 		}
 		rep.Violations = append(rep.Violations, t)
-		return len(rep.Violations) >= 2
+		return len(rep.Violations) >= 3
 	}
 	stop := false
+	st.Report = func(t *Trace, v *Violation) bool {
+		if handle(t, v) {
+			stop = true
+		}
+		return stop
+	}
 	// exhaustive part
 	for i := shard; i < p.Exh && !stop; i += nshard {
 		if time.Since(start) > budget {
@@ -486,6 +499,9 @@ func writeEvidence(p *Plan, prop, tier string, seed uint64, total *Stats, nviol 
 			"stub":     p.Stub,
 			"schedule": p.Schedule,
 		},
+	}
+	for k, v := range p.ExtraCov {
+		cov[k] = v
 	}
 	ev := map[string]any{
 		"property_id": prop,
